@@ -213,6 +213,12 @@ impl StateCheck for C18 {
                 out.typed_errors += 1;
                 return;
             }
+            // the same run when both paths already hold a longer, older file: the saved files are the same
+            let o1s = cli::run_env(&cli::sv(&["-c", "@c.csv", "-l", "CANARIAS", "-a", "2.5", "-k", "0.5", "--red1", "0.125", "1.175", "0.255", "--red2", "0.3335", "0.6665", "0.1115", "--oc", "@oc.csv", "--of", "@of.csv"]), &[("c.csv", text.as_bytes())], &["oc.csv", "of.csv"], Some(3), Duration::from_secs(10), true);
+            out.regime("cli_saved_over_existing_files");
+            if o1s.status != Some(0) || o1s.files != o1.files {
+                out.viol("cli_saved_files_replace_existing_ones", &[], "--oc --of over existing longer files", format!("exit {:?}, lengths {:?}", o1s.status, o1s.files.iter().map(|f| f.1.as_ref().map(|b| b.len())).collect::<Vec<_>>()), format!("the files of a run into fresh paths, lengths {:?}", o1.files.iter().map(|f| f.1.as_ref().map(|b| b.len())).collect::<Vec<_>>()));
+            }
             let get = |n: &str| o1.files.iter().find(|(k, _)| k == n).and_then(|(_, b)| b.clone());
             let (Some(oc), Some(of)) = (get("oc.csv"), get("of.csv")) else {
                 out.viol("cli_writes_oc_of", &[], "--oc --of", "a requested file is missing", "two files");
@@ -285,6 +291,9 @@ fn extra_letters() -> Vec<Letter> {
         Letter::one(Line::M { key: "Nota", val: "a: b, c # d" }),
         Letter::one(Line::Raw("#CTE_Localizacion: PENINSULA".into())),
         Letter::one(Line::Raw("#CTE_kexp: 0.5".into())),
+        // the same key a second time (legacy spelling + #META): the saved file must still give the value used
+        Letter::one(Line::Raw("#CTE_Area_ref: 150".into())),
+        Letter::one(Line::M { key: "CTE_KEXP", val: "0.25" }),
         Letter::one(u(Some(1), "ACS", "EAMBIENTE", &[333, 667])),
         Letter::one(p(Some(1), "EAMBIENTE", &[100, 900])),
         Letter::one(Line::Raw("# WF:#META CTE_FUENTE: usuario\\nELECTRICIDAD, RED, SUMINISTRO, A, 0.4146, 1.9544, 0.3315 # red\\nGASNATURAL, RED, SUMINISTRO, A, 0.005, 1.19, 0.252\\nEAMBIENTE, INSITU, A_RED, B, 0.5, 0.25, 0.125 # exportación\\nBIOMASA, RED, SUMINISTRO, A, 1.003, 0.034, 0.018".into())),
@@ -309,7 +318,7 @@ pub fn run(ctx: &Ctx) -> i32 {
     let mut small = extra_letters();
     small.push(Letter::one(u(Some(0), "CAL", "GASNATURAL", &k(&[3, 1]))));
     small.push(Letter::one(u(Some(1), "ACS", "ELECTRICIDAD", &k(&[1, 3]))));
-    explore(ctx, "small files with every kind of line, depth<=3 (CLI --oc/--of round trip)", Wide { alphabet: small, bases: alpha::bases(false), max_add: if ctx.quick() { 2 } else { 3 }, repeat: false }, C18 { cli: true }, shared.clone());
+    explore(ctx, "small files with every kind of line, depth<=3 (CLI --oc/--of round trip)", Wide { alphabet: small, bases: vec![("empty".to_string(), String::new()), ("one boiler".to_string(), "2, CONSUMO, CAL, GASNATURAL, 4, 2\n".to_string())], max_add: if ctx.quick() { 2 } else { 3 }, repeat: false }, C18 { cli: true }, shared.clone());
     finish(
         ctx,
         &shared,
